@@ -10,6 +10,7 @@ from lib.sessions import (C_BIND, C_EXT, C_SEARCH, CLIENT, DRAIN, RECV, S_BINDRE
 class C10(SessionProp):
     id = "C10"
     prop_file = "Props/C10"
+    unenc = 0.04
     rule = (
         "corpus: unsolicited-notification shapes (id 0, notice name, codes 2/8/52/80/0), 300-cycle histories replaying retired ids >= 257, >64 KiB queues; seeded histories (1-14 calls) of server and client sessions with every response kind x every RFC 4511 result code x every candidate id "
         "(outstanding, retired, never received, 0, negative, huge) in every state, after rejections and closure; after "
@@ -34,6 +35,7 @@ class C10(SessionProp):
         trace = ans[0]
         role = c["role"]
         outstanding = set()
+        meta = c.get("meta") or [None] * len(c["calls"])
         for i, call, o, st, out, st2, out2 in self.steps(c, trace):
             k = call[0]
             if k in SEND_CALLS:
@@ -45,7 +47,7 @@ class C10(SessionProp):
                         if k not in (S_ENTRY, S_REF):
                             outstanding.discard(mid)
                 else:
-                    if o[0] == 6:
+                    if o[0] == 6 and meta[i] != "unenc":
                         return f"step {i}: a refused call failed with a foreign exception (code {o[1]})"
                     if out2 != out:
                         return f"step {i}: a refused call changed the outgoing byte stream"
